@@ -137,6 +137,43 @@ CYCLIC = {
 }
 BRANCHING = {"branch2-list", "branch2-dict", "branch3-mixed", "prefix-then-branch2"}
 
+def wide_spec(rng, n: int):
+    """root -> n containers (or root -> m groups -> n/m containers); each leaf container empty or holding one scalar."""
+    root_kind = rng.choice("ld")
+    leaf = rng.choice(("empty-l", "empty-d", "scalar-l", "scalar-d"))
+    two_level = rng.random() < 0.4
+    nodes: List[list] = [[root_kind, []]]
+    nodes.append(["v", 3])  # shared scalar
+    groups = [0]
+    if two_level:
+        groups = []
+        for g in range(rng.choice((3, 17, 60))):
+            nodes.append([rng.choice("ld"), []])
+            groups.append(len(nodes) - 1)
+    for i in range(n):
+        if leaf == "empty-l":
+            nodes.append(["l", []])
+        elif leaf == "empty-d":
+            nodes.append(["d", []])
+        elif leaf == "scalar-l":
+            nodes.append(["l", [1]])
+        else:
+            nodes.append(["d", [["a", 1]]])
+        parent = groups[i % len(groups)]
+        idx = len(nodes) - 1
+        if nodes[parent][0] == "l":
+            nodes[parent][1].append(idx)
+        else:
+            nodes[parent][1].append([f"k{i}", idx])
+    if two_level:
+        for gi, g in enumerate(groups):
+            if nodes[0][0] == "l":
+                nodes[0][1].append(g)
+            else:
+                nodes[0][1].append([f"g{gi}", g])
+    return {"graph": nodes, "root": 0}, (3 if two_level else 2)
+
+
 DAGS = {
     "dag-shared-leaf": {"graph": [["l", [1, 1]], ["l", [2]], ["v", 1]], "root": 0},
     "dag-diamond": {"graph": [["d", [["a", 1], ["b", 2]]], ["l", [3]], ["l", [3]], ["d", [["a", 4]]], ["v", 9]], "root": 0},
@@ -191,8 +228,17 @@ def gen_scenario(rng, tier: str) -> Dict[str, Any]:
             else:
                 sel = {"t": "wild"}
             segs.append({"k": "child", "sels": [sel], "sh": rng.random() < 0.5})
+    elif r < 0.65:
+        # wide, shallow data: hundreds or thousands of containers, nesting 2 or 3
+        n = rng.choice((300, 2100, 5200) if tier != "thorough" else (300, 2100, 5200, 12000, 26000))
+        L = rng.choice((2, 3, 5, 5, 100))
+        spec, nest = wide_spec(rng, n)
+        shape = {"class": "wide", "n": n, "nesting": nest}
+        segs = []
+        if rng.random() < 0.2:
+            segs.append({"k": "child", "sels": [{"t": "wild"}], "sh": False})
     else:
-        if r < 0.9:
+        if r < 0.92:
             name = rng.choice(sorted(CYCLIC))
             spec = CYCLIC[name]
             shape = {"class": "cyclic-branching" if name in BRANCHING else "cyclic", "name": name}
@@ -289,6 +335,8 @@ def signature(sc: Dict[str, Any], ev: Dict[str, Any], cls: str) -> str:
     parts = [f"C18:{mode}:{cls}", f"shape={sh['class']}", f"nesting-L={delta}", lim]
     if sh["class"] == "chain":
         parts.append(f"bottom={sh['bottom']}")
+    if sh["class"] == "wide":
+        parts.append(f"n={sh['n']}")
     return ":".join(parts)
 
 
